@@ -1,7 +1,7 @@
 """C02 — row aggregates survive the agent -> aggregator transfer unchanged (DESIGN §6 C02)."""
 HARNESS = "./cmd/verif-c02"
 DRIVER = "drv_c02"
-NCORPUS = 11  # scripted buckets in cmd/verif-c02 corpus()
+NCORPUS = 13  # scripted buckets in cmd/verif-c02 corpus()
 
 
 def run(c):
@@ -9,11 +9,11 @@ def run(c):
               "Shard.sampleBucket call (StringTopCountSend 3: FinishStringTop folds) and serialised only afterwards, then the decoded bucket is handed to the REAL "
               "Aggregator.handleSendSourceBucket (rpc HandlerContext mock seam; aggregator knows 4 string mappings, agent host mapped or not) and the rows are read "
               "from the real aggregatorBucket; a third of the rows use string-top capacity 3 (MapStringTop resamples / redirects to Tail); per row: random key (tag / string-tag layout incl. index 47, timestamp at every edge of the believe window), "
-              "1-6 events (counter / value / histogram / single value with count / unique; tail or one of 13 string-top keys (positive ints, raw int32 values incl. -1 / MinInt32 / MaxInt32 / negated mapped id, strings incl. a mapped one, a non-normalized key); 6 host "
+              "1-6 events (counter / value / histogram / single value with count / unique incl. values whose 32-bit sketch hash is 0 (verified with the real hash); a quarter of the rows through the legacy path MultiValue.ApplyValuesLegacy, half of those with all-identical values; tail or one of 13 string-top keys (positive ints, raw int32 values incl. -1 / MinInt32 / MaxInt32 / negated mapped id, strings incl. a mapped one, a non-normalized key); 6 host "
               "tags; counts 0, total and dyadic multiples) applied through the real data_model API, sent with sf in "
               "{1,2,3,10,3/2,9/4,4,15/2} through the real Shard.sampleBucket (keepF), TL bytes written and read back, merged with "
               "KeyFromStatshouseMultiItem + MergeWithTLMultiItem; non-trivial = row built from >= 2 event kinds or sent in the compact "
-               "(min == max) form, or a bucket holding >= 2 rows with string tops; distinct by op-sequence hash; 11 scripted corpus buckets run first (minimised F1 / F12 shapes, shared TopElement slice, resample at capacity, FinishStringTop fold, negative raw int32 top keys, sibling keys); every bucket is decoded into ONE reused receive buffer that is overwritten in place before the aggregator rows are read back")
+               "(min == max) form, or a bucket holding >= 2 rows with string tops; distinct by op-sequence hash; 13 scripted corpus buckets run first (minimised F1 / F12 shapes, shared TopElement slice, resample at capacity, FinishStringTop fold, negative raw int32 top keys, sibling keys, zero-hash unique values, legacy percentile path with all-zero values); every bucket is decoded into ONE reused receive buffer that is overwritten in place before the aggregator rows are read back")
     c.assumptions += [
         "float64 arithmetic is modelled by exact rationals; the generator stays in the exact domain (small dyadic numbers); float32 rounding of centroids is not modelled",
         "hrissan/tdigest is trusted: a digest is modelled as the list of centroids added to it, Centroids() is an input of the model (agent side: compression 2000 so nothing is merged; "
@@ -23,6 +23,7 @@ def run(c):
         "the real handleSendSourceBucket is driven offline (Aggregator struct built as MakeAggregator does, recent window opened by the real advanceRecentBuckets); only user metrics (id > 0) are generated, "
         "so the built-in-metric key rewriting of the handler is not exercised; strings are valid (validateStringTag never drops a row)",
         "the fixed-width fields of Key.MarshalAppend (little-endian words) are compared as numbers, only the string-tag section byte for byte; string tags contain no NUL byte",
+        "the sum of squares of rows holding values beyond 2^26 (the zero-hash unique values) is outside the exact float64 domain: not compared; such values are not used in percentile rows (float32 centroids)",
         "random draws are inputs of the model: the max-counter-host choice, and for string tops at capacity WHICH entries a resample evicted / FinishStringTop folded (observed from the Top map before/after; "
         "the fold order is not observable, rows that can fold carry one host tag so that the result does not depend on it; the model validates the necessary conditions of each draw)",
         "mapped string-top keys stay distinct (a string key and the int it maps to would be merged by the aggregator with an unseeded random max-counter host: excluded by hypothesis and by the generator)",
@@ -64,7 +65,7 @@ META = {
     "note": ("Model variant .fixed = tree with fixes/C02-compact-sum.diff and fixes/C02-empty-host.diff (both committed in /repo); the pinned-tree behaviour is kept as "
              "variant .repo with `decide` counterexamples. Trusted, not proved: float64/float32 rounding (exact arithmetic instead), hrissan/tdigest internals (what "
              "Centroids() returns on the agent and how the aggregator digest compresses the added list), ChUnique internals and serialisation (sets of hashes at "
-             "skipDegree 0), the TL codec, and the model<->code correspondence on generated buckets. Hypotheses of the headline theorem: normalized event hosts, numbers "
+             "skipDegree 0; the reported item count IS compared, incl. the special zero item), the TL codec, and the model<->code correspondence on generated buckets. Hypotheses of the headline theorem: normalized event hosts, numbers "
              "inside the aggregator's float32 validators, timestamp inside the believe window (clamps proved separately), mapped string-top keys distinct, the agent host "
              "tag is what getTagUnionBytes returns. Reading: a value without digest counts as the single centroid (min, count); for a percentile row holding several "
              "distinct values but no digest (unique events only) the property defines no centroids - the theorem states what the code does (implicit centroid at min), "
